@@ -117,7 +117,7 @@ def gen_t2(sim, big=False, want_old=None):
         else:
             a = sim.randint(kind + ".addr", 0, 11)
         # never on TLV headers / the NDEF TLV's T and L bytes; not every address is expressible
-        if a < first_free and a + nbytes > 16:
+        if a < first_free and a + nbytes > 12:      # never on the CC or on TLV headers
             a = first_free
         while t2t.encode_ctrl(a, 1) is None:
             a += 1
@@ -243,7 +243,7 @@ def gen_t1(sim, big=False, want_old=None):
             a = end + sim.randint(kind + ".addr", 1, 40)
         else:
             a = sim.randint(kind + ".addr", 0, 11)
-        if a < first_free and a + nbytes > 12:
+        if a < first_free and a + nbytes > 8:       # never on the CC or on TLV headers
             a = first_free
         while t2t.encode_ctrl(a, 1) is None:
             a += 1
@@ -284,3 +284,183 @@ def gen_t1(sim, big=False, want_old=None):
 
 
 GENERATORS["t1"] = gen_t1
+
+
+# --------------------------------------------------------------------------------------
+# Type 3
+# --------------------------------------------------------------------------------------
+from . import t3t
+
+
+class T3Case(TagCase):
+    kind = "t3"
+
+    def __init__(self, nbr, nbw, nmaxb, nblocks, old, fill_seed, idm, pmm, max_read, max_write,
+                 systems, brty):
+        self.nbr, self.nbw, self.nmaxb, self.nblocks = nbr, nbw, nmaxb, nblocks
+        self.old = bytes(old)
+        self.idm, self.pmm = idm, pmm
+        self.max_read, self.max_write, self.systems, self.brty = max_read, max_write, systems, brty
+        import random
+        fill = random.Random(fill_seed).randbytes(16 * nblocks)
+        blocks = [bytearray(fill[16 * i:16 * i + 16]) for i in range(nblocks)]
+        blocks[0][:] = t3t.attr_block(0x10, nbr, nbw, nmaxb, 0, 1, len(old))
+        padded = self.old + bytes(-len(self.old) % 16)
+        for i in range(len(padded) // 16):
+            blocks[1 + i][:] = padded[16 * i:16 * i + 16]
+        self.image = b"".join(bytes(b) for b in blocks)
+
+    def silicon(self, image=None):
+        img = image if image is not None else self.image
+        blocks = [img[i:i + 16] for i in range(0, len(img), 16)]
+        return t3t.T3TSilicon(blocks, self.idm, self.pmm, systems=self.systems,
+                              max_read=self.max_read, max_write=self.max_write, brty=self.brty)
+
+    def world(self, nfc, image=None):
+        sil = self.silicon(image)
+        w = World(nfc, [sil])
+        w.silicon = sil
+        return w
+
+    def true_capacity(self):
+        return self.nmaxb * 16
+
+    def parse(self, mem):
+        blocks = [mem[i:i + 16] for i in range(0, len(mem), 16)]
+        return t3t.parse_t3t(blocks)
+
+    def allowed_changes(self):
+        return set(range(0, 16 * (self.nmaxb + 1)))
+
+    def describe(self):
+        return {"type": "T3T", "nbr": self.nbr, "nbw": self.nbw, "nmaxb": self.nmaxb,
+                "physical_blocks": self.nblocks, "silicon_max_read": self.max_read,
+                "silicon_max_write": self.max_write, "old_len": len(self.old),
+                "systems": ["%04X" % s for s in self.systems]}
+
+
+def gen_t3(sim, big=False, want_old=None):
+    max_read = sim.wpick("t3.maxread", [(3, 15), (2, 12), (2, 4), (1, 1), (1, 8)])
+    max_write = sim.wpick("t3.maxwrite", [(3, 13), (2, 8), (2, 1), (1, 4), (1, 12)])
+    nbr = sim.randint("t3.nbr", 1, max_read)
+    nbw = sim.randint("t3.nbw", 1, max_write)
+    nmaxb = sim.wpick("t3.nmaxb", [(3, 13), (2, 1), (2, 3), (2, 16), (2, 20), (1, 63)] +
+                      ([(1, 255), (1, 256), (1, 300)] if big else []))
+    extra = sim.pick("t3.extra", [0, 0, 1, 2, 5])
+    nblocks = nmaxb + 1 + extra
+    cap = nmaxb * 16
+    if want_old is None:
+        old_len, oc = pick_len(sim, "t3.oldlen", cap)
+    else:
+        old_len, oc = min(want_old, cap), "given"
+    old = sim.bytes("t3.old", old_len, tag=1)
+    idm = b"\x02\xFE" + sim.bytes("t3.idm", 6, tag=2)
+    pmm = b"\x00\xF5" + b"\xFF\xFF\xFF\xFF\xFF\xFF"     # IC code F5: unknown product -> generic Type3Tag
+    systems = sim.pick("t3.systems", [(0x12FC,), (0x12FC,), (0x8008, 0x12FC), (0x12FC, 0xFE00)])
+    brty = sim.pick("t3.brty", ["212F", "424F"])
+    case = T3Case(nbr, nbw, nmaxb, nblocks, old, sim.choose("t3.fill", 1 << 16), idm, pmm,
+                  max_read, max_write, systems, brty)
+    case.old_class = oc
+    if nbw == 1:
+        sim.probe("t3.nbw1")
+    return case
+
+
+GENERATORS["t3"] = gen_t3
+
+
+# --------------------------------------------------------------------------------------
+# Type 4
+# --------------------------------------------------------------------------------------
+from . import t4t
+
+
+class T4Case(TagCase):
+    kind = "t4"
+
+    def __init__(self, ver, mle, mlc, fid, size, physical, old, fill_seed, tech, uid, fsci, fwi,
+                 chunk, max_send, max_recv, v1_aid, wtx_every):
+        self.ver, self.mle, self.mlc, self.fid, self.size, self.physical = ver, mle, mlc, fid, size, physical
+        self.old = bytes(old)
+        self.tech, self.uid, self.fsci, self.fwi, self.chunk = tech, uid, fsci, fwi, chunk
+        self.max_send, self.max_recv, self.v1_aid, self.wtx_every = max_send, max_recv, v1_aid, wtx_every
+        self.nlen_size = 4 if ver >> 4 == 3 else 2
+        import random
+        fill = bytearray(random.Random(fill_seed).randbytes(physical))
+        fill[0:self.nlen_size] = len(old).to_bytes(self.nlen_size, "big")
+        fill[self.nlen_size:self.nlen_size + len(old)] = old
+        self.image = bytes(fill)
+
+    def silicon(self, image=None):
+        app = t4t.NdefApp(self.ver, self.mle, self.mlc, self.fid,
+                          image if image is not None else self.image, self.size, v1_aid=self.v1_aid)
+        plan = None
+        if self.wtx_every:
+            cnt = [0]
+
+            def plan(kind, cnt=cnt, n=self.wtx_every):
+                cnt[0] += 1
+                return 1 if cnt[0] % n == 0 else 0
+        return t4t.T4TSilicon(app, tech=self.tech, uid=self.uid, fsci=self.fsci, fwi=self.fwi,
+                              chunk=self.chunk, wtx_plan=plan)
+
+    def world(self, nfc, image=None):
+        sil = self.silicon(image)
+        w = World(nfc, [sil], max_send=self.max_send, max_recv=self.max_recv)
+        w.silicon = sil
+        return w
+
+    def true_capacity(self):
+        return self.size - self.nlen_size
+
+    def parse(self, mem):
+        return t4t.parse_ndef_file(mem, self.nlen_size, self.size)
+
+    def allowed_changes(self):
+        return set(range(0, self.size))
+
+    def describe(self):
+        return {"type": "T4" + self.tech, "mapping": "%02X" % self.ver, "mle": self.mle, "mlc": self.mlc,
+                "file_size": self.size, "physical": self.physical, "fsci": self.fsci, "fwi": self.fwi,
+                "resp_chunk": self.chunk, "dev_max_send": self.max_send, "dev_max_recv": self.max_recv,
+                "old_len": len(self.old), "wtx_every": self.wtx_every}
+
+
+def gen_t4(sim, big=False, want_old=None, atomic_nlen=False, protocol_variants=False):
+    ver = sim.wpick("t4.ver", [(4, 0x20), (2, 0x30), (1, 0x10)])
+    mle = sim.wpick("t4.mle", [(2, 0x0F), (2, 0x3B), (2, 0xF6), (2, 0xFF), (2, 0x100), (1, 0x101),
+                               (1, 0x1000), (1, 0xFFFF), (1, 0x20)])
+    mlc = sim.wpick("t4.mlc", [(2, 1), (1, 2), (1, 3), (2, 0x34), (2, 0xF6), (2, 0xFF), (1, 0x100),
+                               (1, 0x1000), (1, 0xFFFF), (1, 13)])
+    nl = 4 if ver >> 4 == 3 else 2
+    if atomic_nlen and mlc < nl:
+        # with MLc smaller than the NLEN field no writer can commit the length atomically
+        mlc = nl
+    size = sim.wpick("t4.size", [(2, 5 + nl), (3, 64), (3, 128), (2, 258), (2, 300), (2, 1024)] +
+                     ([(1, 4096), (1, 32768)] if big else []))
+    if mlc <= 3 and size > 300:
+        size = 128          # keep run time bounded: 1-byte UPDATE BINARY chunks
+    physical = size + sim.pick("t4.extra", [0, 0, 3, 16])
+    tech = sim.pick("t4.tech", ["A", "A", "B"])
+    uid = b"\x08" + sim.bytes("t4.uid", 3, tag=2)
+    fsci = sim.wpick("t4.fsci", [(3, 8), (2, 5), (1, 0), (1, 1), (1, 2), (1, 3), (1, 4), (1, 6), (1, 7)])
+    fwi = sim.wpick("t4.fwi", [(3, 4), (1, 0), (1, 7), (1, 8), (1, 11), (1, 12), (1, 14)])
+    chunk = sim.wpick("t4.chunk", [(4, None), (1, 1), (1, 13), (1, 29)]) if protocol_variants else None
+    max_send = sim.wpick("t4.maxsend", [(4, 290), (1, 64), (1, 264), (1, 40)])
+    max_recv = sim.wpick("t4.maxrecv", [(4, 290), (1, 64), (1, 264), (1, 255)])
+    v1_aid = ver >> 4 == 1
+    wtx_every = sim.wpick("t4.wtx", [(4, 0), (1, 3), (1, 1)]) if protocol_variants else 0
+    cap = size - nl
+    if want_old is None:
+        old_len, oc = pick_len(sim, "t4.oldlen", cap)
+    else:
+        old_len, oc = min(want_old, cap), "given"
+    old = sim.bytes("t4.old", old_len, tag=1)
+    fid = sim.pick("t4.fid", [b"\xE1\x04", b"\x00\x01", b"\xE1\x05"])
+    case = T4Case(ver, mle, mlc, fid, size, physical, old, sim.choose("t4.fill", 1 << 16), tech, uid,
+                  fsci, fwi, chunk, max_send, max_recv, v1_aid, wtx_every)
+    case.old_class = oc
+    return case
+
+
+GENERATORS["t4"] = gen_t4
